@@ -104,6 +104,23 @@ func checkSuffix(text []byte) (msg string, bad bool) {
 			return fmt.Sprintf("InvertSA: sainv[sa[%d]=%d] = %d", i, p, inv[p]), true
 		}
 	}
+	// Calls that LCP refuses (a table of the wrong length: it panics, the
+	// caller recovers) must not leave anything behind that changes the
+	// answers to the calls that follow.
+	if n > 0 {
+		for _, wrong := range []int{n + 1, n - 1} {
+			for _, withSA := range []bool{true, false} {
+				func() {
+					defer func() { _ = recover() }()
+					var saArg []int32
+					if withSA {
+						saArg = append([]int32(nil), sa...)
+					}
+					suffix.LCP(t, saArg, nil, make([]int32, wrong))
+				}()
+			}
+		}
+	}
 	// Not supplied is nil - or, from a caller that keeps its slices, a slice
 	// of another length (what is left of an earlier, shorter or longer text):
 	// LCP then computes the array itself. Both such slices may well be cut
